@@ -382,7 +382,7 @@ class boolean(int, FieldType):
     value = None
 
     def __init__(self, value):
-        if value < 0 or value > 1:
+        if value < 0 or value > 1 or value != int(self):
             raise ValueError("Value not a valid boolean value")
 
         self.value = bool(value)
